@@ -6,6 +6,16 @@ HERE = os.path.dirname(os.path.dirname(os.path.abspath(__file__)))
 ALL = ["C%02d" % i for i in range(1, 21)]
 
 CHECKS = {
+ "C01": dict(
+    category="model_checking", design_ref="DESIGN.md 5/C01",
+    text="TLA+ specification of the bin archive file format (spec/BinFormat.tla: Canon, Layouts, WellFormedFor, total reference parser RefParse). TLC checks on the bounded model that every conforming layout of every content is well-formed and re-parses to the content; every generated layout is fed to mila's parser and compared; images serialized by mila for random larger contents are validated by TLC acting as the independent reference reader.",
+    note="Bounded enumeration (<= 2-3 cells, curated strings/labels); beyond it seeded random contents (<= 64 cells) and the repository's files. Shift-JIS codec, serde_json and the harness content builder/projection are trusted.",
+    technique="TLA+ format spec + TLC exhaustive law check; spec->impl layout replay; impl->spec validation of serialized images by TLC"),
+ "C02": dict(
+    category="model_checking", design_ref="DESIGN.md 5/C02",
+    text="The canonical image is a TLA+ function of content (BinFormat!Canon). TLC checks Canon is a conforming layout and idempotent under parse on the bounded model; every enumerated content is built in several call orders on fresh instances and mila's bytes are compared with Canon (byte-exact) and with each other; random contents and the repository's golden files are compared with Canon by TLC.",
+    note="Big-endian byte-exactness only where every reading of 'by name' agrees (distinct ASCII first names); otherwise determinism only. Same bounds and trusted base as C01.",
+    technique="TLA+ canonical writer + TLC; spec->impl byte comparison over call orders; impl->spec Canon check by TLC"),
  "C07": dict(
     category="model_checking", design_ref="DESIGN.md 5/C07",
     text="TLA+ state machine of the text archive (spec/TextArchive.tla). TLC checks the ordering/escaping/dirty laws exhaustively on the bounded model; every (state, call) pair of that model is replayed on the real TextArchive and compared with the allowed outcomes; seeded random histories recorded from the real TextArchive are validated step by step by TLC (Trace_TextArchive).",
